@@ -415,6 +415,106 @@ def coqchk_step(pid):
     return res
 
 
+
+# ----------------------------------------------------------------------------------------
+# order independence: the implementation's answer for a case must not depend on which other cases
+# ran before it in the same process (caches keyed on too little, class-level or module-level state,
+# shared mutable defaults).  The sharded run executes every case once, in a fixed order; here a
+# stratified sample is re-run in ONE fresh child process, shuffled, forwards and then backwards.
+def _run_sequence_in_child(funcs, seq):
+    """seq: list of (fn, arg); returns the list of outputs, computed in order in a forked child"""
+    ctx = mp.get_context('fork')
+    parent, child = ctx.Pipe(duplex=False)
+    def work(conn):
+        outs = []
+        for fn, arg in seq:
+            try:
+                outs.append(funcs[fn](arg))
+            except BaseException as e:
+                outs.append(['HARNESS', repr(e)])
+        try:
+            conn.send(outs)
+        finally:
+            conn.close()
+            os._exit(0)
+    pr = ctx.Process(target=work, args=(child,))
+    pr.start()
+    child.close()
+    try:
+        if parent.poll(600):
+            outs = parent.recv()
+        else:
+            outs = None
+    except EOFError:
+        outs = None
+    pr.join(5)
+    if pr.is_alive():
+        pr.kill()
+    return outs
+
+def order_independence(ck, mod, funcs, canon, plain, iouts, rng, budget_cases, budget_s):
+    byfn = {}
+    for idx, (fn, arg) in enumerate(plain):
+        byfn.setdefault(fn, []).append(idx)
+    skip = set(getattr(mod, 'ORDER_REPLAY_SKIP_FUNCS', ()))
+    pick = []
+    fns = [f for f in byfn if f not in skip]
+    if not fns:
+        return {'cases': 0, 'deviations': []}
+    for fn in fns:
+        idxs = byfn[fn]
+        share = max(1, budget_cases // len(fns))
+        if len(idxs) > share:
+            # half of the share as runs of NEIGHBOURING cases (same text with other options ...), half at random
+            runs = []
+            for _ in range(max(1, share // 16)):
+                a = rng.randrange(0, len(idxs))
+                runs.extend(idxs[a:a + 8])
+            idxs = list(dict.fromkeys(runs + rng.sample(idxs, share // 2)))
+        pick.extend(idxs)
+    rng.shuffle(pick)
+    seq = pick + pick[::-1]
+    t = time.time()
+    outs = _run_sequence_in_child(funcs, [plain[i] for i in seq])
+    if outs is None:
+        return {'cases': len(seq), 'deviations': [], 'note': 'the replay child did not answer (skipped)'}
+    devs = []
+    for pos, (i, o) in enumerate(zip(seq, outs)):
+        fn = plain[i][0]
+        if isinstance(o, list) and o and o[0] == 'HARNESS':
+            continue
+        if canon(fn, o) != canon(fn, iouts[i]):
+            devs.append((pos, i, o))
+            if len(devs) >= 3:
+                break
+    res = {'cases': len(seq), 'wall_s': round(time.time() - t, 1), 'deviations': []}
+    for (pos, i, o) in devs[:2]:
+        fn, arg = plain[i]
+        # shrink the prefix: keep the last case, drop chunks of what ran before it while it still deviates
+        prefix = seq[:pos]
+        def deviates(pre):
+            r = _run_sequence_in_child(funcs, [plain[j] for j in pre] + [plain[i]])
+            return r is not None and canon(fn, r[-1]) != canon(fn, iouts[i])
+        if not deviates(prefix):
+            res['deviations'].append({'fn': fn, 'arg': arg, 'history': None, 'out': o, 'note': 'not reproducible from the recorded prefix'})
+            continue
+        tries = 0
+        chunk = max(1, len(prefix) // 2)
+        while chunk >= 1 and tries < 40 and time.time() - t < budget_s:
+            k = 0; progressed = False
+            while k < len(prefix) and tries < 40:
+                cand = prefix[:k] + prefix[k + chunk:]
+                tries += 1
+                if deviates(cand):
+                    prefix = cand; progressed = True
+                else:
+                    k += chunk
+            if not progressed or chunk == 1:
+                chunk //= 2
+        r = _run_sequence_in_child(funcs, [plain[j] for j in prefix] + [plain[i]])
+        res['deviations'].append({'fn': fn, 'arg': arg, 'history': [plain[j] for j in prefix], 'out': r[-1] if r else o, 'alone': iouts[i]})
+    return res
+
 # ----------------------------------------------------------------------------------------
 # thorough tier: which lines of the anchored code the implementation-side cases execute
 def impl_line_coverage(pid, funcs, cases, sample=12000, budget_s=150):
@@ -694,6 +794,37 @@ def run_check(mod, tier, seed):
           except Exception as e:
             violations.append({'kind': 'extra:crashed', 'what': 'a property-specific extra check raised %r (the implementation no longer offers what the check observes, or the harness is broken)\n%s' % (e, traceback.format_exc()[-1200:]), 'failing_input_found': False})
 
+        # ---- order independence of the implementation's answers (see order_independence)
+        order_info = {}
+        if not harness_errors and not getattr(mod, 'NO_ORDER_REPLAY', False) and not os.environ.get('VERIF_SKIP_ORDER_REPLAY'):
+            try:
+                oi = order_independence(ck, mod, implf, canon, plain, iouts, random.Random(seed ^ 0x5eed),
+                                        budget_cases=(2500 if tier == 'quick' else 12000), budget_s=(40 if tier == 'quick' else 240))
+            except Exception as e:
+                oi = {'cases': 0, 'deviations': [], 'note': 'replay failed: %r' % (e,)}
+            order_info = {k: oi[k] for k in oi if k != 'deviations'}
+            order_info['deviating_cases'] = len(oi['deviations'])
+            ck.log('order-independence replay: %s' % order_info)
+            for dv in oi['deviations']:
+                fn = dv['fn']; arg = dv['arg']
+                msg = None
+                if oracle:
+                    try:
+                        msg = oracle(fn, arg, dv['out'])
+                    except Exception as e:
+                        msg = None
+                detail = {'history_len': None if dv['history'] is None else len(dv['history']), 'oracle': msg}
+                k = ck.match_known('history', fn, arg, detail)
+                if k:
+                    ck.known_hits[k['id']] = ck.known_hits.get(k['id'], 0) + 1
+                    continue
+                violations.append({'kind': 'history', 'fn': fn, 'function': funcs[fn][0], 'arg': arg, 'readable': describe(mod, fn, arg),
+                                   'history_before_the_case': None if dv['history'] is None else [describe(mod, f2, a2) for (f2, a2) in dv['history']],
+                                   'history_raw': dv['history'],
+                                   'impl_output_in_this_history': dv['out'], 'impl_output_alone': dv.get('alone'),
+                                   'what': 'the implementation answers this case differently after the listed earlier calls in the same process than on its own'
+                                           + ((' -- and the answer violates the property: ' + msg) if msg else ' (results depend on what the process did before)'),
+                                   'failing_input_found': bool(msg)})
         # ---- classify oracle failures (each is a concrete failing input on the implementation)
         new_oracle = []
         for (idx, fn, arg, msg, io) in oracle_fail:
@@ -814,6 +945,7 @@ def run_check(mod, tier, seed):
             'known_findings_reproduced': ck.known_hits,
             'functions_compared': sorted(v[0] for v in funcs.values()),
             'kernel_crosschecks': thorough_info,
+            'order_independence_replay': order_info,
             'vm_compute_crosschecked': thorough_info.get('vm_compute_crosscheck', {}).get('evaluated', 0),
         })
         ev['assumptions'] = getattr(mod, 'ASSUMPTIONS', [])
